@@ -1,4 +1,4 @@
-(* Auth.v — executable model of the admission decision of the relay (property C15).
+(* Auth.v — executable model of the acceptance decision of the relay (property C15).
 
    Written from the sources actually linked into the server:
      /repo/http/auth.go                                   VerifyAuthToken, VerifyAuthTokenHandler
@@ -255,12 +255,12 @@ Section Decision.
   Definition verify_user_auth (secret : string) (now1 now2 : Z) (tok : string) : bool :=
     if is_empty secret then false else verify_access_token secret now1 now2 tok.
 
-  (* admission of a request, two clock readings *)
-  Definition admit2 (secret : string) (now1 now2 : Z) (r : request) : bool :=
+  (* acceptance of a request, two clock readings *)
+  Definition accept2 (secret : string) (now1 now2 : Z) (r : request) : bool :=
     verify_user_auth secret now1 now2 (token_of r).
 
   (* one instant *)
-  Definition admit (secret : string) (now : Z) (r : request) : bool := admit2 secret now now r.
+  Definition accept1 (secret : string) (now : Z) (r : request) : bool := accept2 secret now now r.
 
 End Decision.
 
@@ -296,32 +296,40 @@ Definition write_status (e : effects) (c : N) : effects :=
   match e_status e with Some _ => e | None => mkEffects (Some c) (e_entered e) end.
 
 (* [ok]: result of VerifyUserAuth on the token of the request (true = nil error).
-   Result None = the body is not of the recognised shape. *)
-Fixpoint run_body (fuel : nat) (ok : bool) (b : list stmt) (w : wstate) : option (outcome * wstate) :=
-  match fuel with
-  | O => None
-  | S fuel' =>
-      match b with
-      | [] => Some (OFell, w)
-      | s :: rest =>
-          match s with
-          | SAssignToken => run_body fuel' ok rest (mkW true (w_eff w))
-          | SIfVerifyErr body =>
-              if w_tok w then
-                if ok then run_body fuel' ok rest w
-                else match run_body fuel' ok body w with
-                     | Some (OFell, w') => run_body fuel' ok rest w'
-                     | r => r
-                     end
-              else None
-          | SLog | SPure => run_body fuel' ok rest w
-          | SWriteHeader c => run_body fuel' ok rest (mkW (w_tok w) (write_status (w_eff w) c))
-          | SReturnErr => Some (ORetErr, w)
-          | SReturnNil => Some (ORetNil, w)
-          | SReturn => Some (ORet, w)
-          | SCallNext => run_body fuel' ok rest (mkW (w_tok w) (mkEffects (e_status (w_eff w)) true))
-          | SOther _ => None
-          end
+   Result None = the body is not of the recognised shape.  Structural recursion on the statement
+   (the list inside [SIfVerifyErr] is walked by the nested [fix]). *)
+Fixpoint run_stmt (ok : bool) (s : stmt) (w : wstate) {struct s} : option (outcome * wstate) :=
+  match s with
+  | SAssignToken => Some (OFell, mkW true (w_eff w))
+  | SIfVerifyErr body =>
+      if w_tok w then
+        if ok then Some (OFell, w)
+        else (fix run_list (b : list stmt) (w : wstate) {struct b} : option (outcome * wstate) :=
+                match b with
+                | [] => Some (OFell, w)
+                | s' :: rest =>
+                    match run_stmt ok s' w with
+                    | Some (OFell, w') => run_list rest w'
+                    | r => r
+                    end
+                end) body w
+      else None
+  | SLog | SPure => Some (OFell, w)
+  | SWriteHeader c => Some (OFell, mkW (w_tok w) (write_status (w_eff w) c))
+  | SReturnErr => Some (ORetErr, w)
+  | SReturnNil => Some (ORetNil, w)
+  | SReturn => Some (ORet, w)
+  | SCallNext => Some (OFell, mkW (w_tok w) (mkEffects (e_status (w_eff w)) true))
+  | SOther _ => None
+  end.
+
+Fixpoint run_body (ok : bool) (b : list stmt) (w : wstate) : option (outcome * wstate) :=
+  match b with
+  | [] => Some (OFell, w)
+  | s :: rest =>
+      match run_stmt ok s w with
+      | Some (OFell, w') => run_body ok rest w'
+      | r => r
       end
   end.
 
@@ -332,7 +340,7 @@ Inductive status := St101 | St2xx | St401 | St403 | StOther.
 
 (* the handshake callback of VerifyAuthToken: Some true = returned a non-nil error *)
 Definition run_handshake_body (ok : bool) (b : list stmt) : option bool :=
-  match run_body 64 ok b w0 with
+  match run_body ok b w0 with
   | Some (ORetErr, w) => if e_entered (w_eff w) then None else match e_status (w_eff w) with None => Some true | Some _ => None end
   | Some (ORetNil, w) => if e_entered (w_eff w) then None else match e_status (w_eff w) with None => Some false | Some _ => None end
   | _ => None
@@ -350,7 +358,7 @@ Definition classify (c : N) : status :=
   else if (N.leb 200 c && N.ltb c 300)%bool then St2xx else StOther.
 
 Definition run_middleware_body (ok : bool) (b : list stmt) : option (status * bool) :=
-  match run_body 64 ok b w0 with
+  match run_body ok b w0 with
   | Some (OFell, w) | Some (ORet, w) =>
       let e := w_eff w in
       Some (match e_status e with
@@ -361,10 +369,10 @@ Definition run_middleware_body (ok : bool) (b : list stmt) : option (status * bo
   end.
 
 (* the model's wrappers: what the server answers and whether the protected handler is entered *)
-Definition ws_model (admitted : bool) : status * bool :=
-  if admitted then (St101, true) else (St403, false).
-Definition mw_model (admitted : bool) : status * bool :=
-  if admitted then (St2xx, true) else (St401, false).
+Definition ws_model (accepted : bool) : status * bool :=
+  if accepted then (St101, true) else (St403, false).
+Definition mw_model (accepted : bool) : status * bool :=
+  if accepted then (St2xx, true) else (St401, false).
 
 (* the bodies as they stand in /repo/http/auth.go at the time of writing (the translator
    regenerates GenAuth.handshake_body / middleware_body from the current sources) *)
